@@ -41,7 +41,7 @@ from pathlib import Path
 sys.path.insert(0, str(Path(__file__).resolve().parent))
 from gen6 import run_solver, Z3, parse_values, log, ENV, VERIF, REPO, OUT, SCRATCH_ROOT, CACHE  # noqa
 
-TIERS = {"quick": (3, 3), "thorough": (4, 3)}      # (max chambers, max degree of the representations)
+TIERS = {"quick": (4, 3), "thorough": (5, 3)}      # (max chambers, max degree of the representations)
 CAP = {"quick": 120, "thorough": 900}
 BV = 3
 CVC5 = ["cvc5", "--lang", "smt2", "--produce-models"]
